@@ -20,6 +20,7 @@
 #include <dirent.h>
 #include <signal.h>
 #include <dlfcn.h>
+#include <sys/prctl.h>
 #include <sys/stat.h>
 #include <sys/wait.h>
 
@@ -610,6 +611,7 @@ int main(int argc, char **argv) {
     if (!strcmp(argv[i], "--dir") && i + 1 < argc) dir = argv[++i];
     else if (!strcmp(argv[i], "--script") && i + 1 < argc) script = argv[++i];
   }
+  if (!script) prctl(PR_SET_PDEATHSIG, SIGKILL);   // a driver never outlives the check process that owns it (a hung library call would spin on)
   FILE *in = stdin;
   if (script) { in = fopen(script, "rb"); if (!in) { perror(script); return 2; } }
   PROTO = dup(1);
@@ -627,7 +629,7 @@ int main(int argc, char **argv) {
       fflush(stdout);
       pid_t c = fork();
       if (c < 0) { pwrite_all("{\"exc\":\"fork failed\"}\n"); continue; }
-      if (c == 0) { fork_depth++; pwrite_all("{\"forked\":" + jint(fork_depth) + "}\n"); continue; }
+      if (c == 0) { prctl(PR_SET_PDEATHSIG, SIGKILL); fork_depth++; pwrite_all("{\"forked\":" + jint(fork_depth) + "}\n"); continue; }
       int st = 0;
       waitpid(c, &st, 0);
       if (WIFEXITED(st) && WEXITSTATUS(st) == 0) pwrite_all("{\"endfork\":" + jint(fork_depth) + "}\n");
